@@ -35,7 +35,12 @@ package nsqlookupd
 //@ pred mTopicChanArgsOK() := mRPErr == nil && mHasArg(mRP, "topic") && validName(mArg(mRP, "topic")) && mHasArg(mRP, "channel") && validName(mArg(mRP, "channel"))
 //@ ghostgroup mRP, mRPErr
 //@ ghostgroup mFRTopic, mFRTopicKey, mFRTopicSub, mFRChan, mFRChanKey, mFRChanSub
-//@ ghostgroup mFound, mFoundCat, mFoundKey, mFoundSub, r3cClientFound, r3cClientKey, r3cClientSub
+// (round 6, area M) r6MWatchTopic is never assigned: an arbitrary topic name, so a statement about it is a statement about every topic.
+// r6MWatchTopicFound = the most recent FindProducers answer for the registration ("topic", r6MWatchTopic, ""), r6MWatchTopicFinds = number of such look-ups.
+//@ ghost r6MWatchTopic string
+//@ ghost r6MWatchTopicFound Producers
+//@ ghost r6MWatchTopicFinds int
+//@ ghostgroup mFound, mFoundCat, mFoundKey, mFoundSub, r3cClientFound, r3cClientKey, r3cClientSub, r6MWatchTopicFound, r6MWatchTopicFinds
 //@ ghostgroup mKept, mKeptFrom
 //@ ghostgroup mAddCalls, mLastAdd, mPrevAdd
 //@ ghostgroup mRemCalls, mLastRem, r3cRemovedSet, r3cRemAttempts, r3cLastAttempt, r3cLastDropped
@@ -259,6 +264,21 @@ package nsqlookupd
 //@ pred r3cTopicsOf(ts []string, regs Registrations) := r3cTopicsSound(ts, regs) && r3cTopicsComplete(ts, regs)
 //@ pred r3cDistinctIDs(pp Producers) := forall d1 int, d2 int :: {pp[d1], pp[d2]} 0 <= d1 && d1 < d2 && d2 < len(pp) ==> pp[d1].peerInfo.id != pp[d2].peerInfo.id
 //@ pred mCacheOK(m map[string]Producers) := forall t2 string :: {m[t2]} has(m, t2) ==> mValidProds(m[t2])
+// (round 6, area M; open since r3C) MEANING OF THE TOMBSTONE FLAGS of /nodes (C14 "a tombstone hides only the named producer for the named topic and lapses
+// after the tombstone lifetime"). For the arbitrary topic r6MWatchTopic, `found` = the producers registered for it (FindProducers("topic", t, ""): exact and
+// complete), pi = the peer of the node:
+//   r6MFlagSound:    a flag is set ONLY IF the entry of THIS peer among the topic's producers is marked tombstoned (never because of another peer's tombstone);
+//   r6MFlagComplete: the entry of this peer is marked and its tombstone is younger than `life` at clock reading `clock` ==> the flag is set
+//                    (clock = the latest reading, so a lapsed tombstone need not be flagged, a live one must be).
+//@ pred r6MFlagSound(flag bool, found Producers, pi *PeerInfo) := flag ==> (exists q int :: {found[q]} 0 <= q && q < len(found) && found[q].peerInfo == pi && found[q].tombstoned)
+//@ pred r6MFlagComplete(flag bool, found Producers, pi *PeerInfo, life int, clock int) :=
+//@      (exists q int :: {found[q]} 0 <= q && q < len(found) && found[q].peerInfo == pi && found[q].tombstoned && clock - unixNano(found[q].tombstonedAt) < life) ==> flag
+//@ pred r6MFlagOK(flag bool, found Producers, pi *PeerInfo, life int, clock int) := r6MFlagSound(flag, found, pi) && r6MFlagComplete(flag, found, pi, life, clock)
+// the cache of per-topic producer lists holds, for the watched topic, the list that was found for it (looked up at most once per request)
+//@ pred r6MCacheWatch(m map[string]Producers) := has(m, r6MWatchTopic) ==> m[r6MWatchTopic] == r6MWatchTopicFound && r3cDistinctIDs(r6MWatchTopicFound) && mValidProds(r6MWatchTopicFound)
+// node n (built for peer pi) is flagged correctly at position gj if that position lists the watched topic
+//@ pred r6MNodeFlagOK(n *node, gj int, m map[string]Producers, pi *PeerInfo, life int, clock int) := 0 <= gj && gj < len(n.Topics) && n.Topics[gj] == r6MWatchTopic ==>
+//@      has(m, r6MWatchTopic) && r6MFlagOK(n.Tombstones[gj], r6MWatchTopicFound, pi, life, clock)
 //@ func (s *httpServer) doNodes(w http.ResponseWriter, req *http.Request, ps httprouter.Params) (interface{}, error)
 //@   props C14 C15
 //@   requires[server] mValidS(s)
@@ -273,6 +293,10 @@ package nsqlookupd
 //@   ensures[node-identity] 0 <= gk && gk < len(mKept) ==> r3cNodeIs(unbox(unbox(result0, "map[string]interface{}")["producers"], "[]*node")[gk], mKept[gk].peerInfo)
 //@   ensures[node-topics] 0 <= gk && gk < len(mKept) && mKept[gk].peerInfo.id == r3cWatchPeer ==>
 //@        r3cTopicsOf(unbox(unbox(result0, "map[string]interface{}")["producers"], "[]*node")[gk].Topics, r3cWatchLooked)
+//@   ghostparam gj int
+//@   ensures[tombstone-flags-mean-this-peers-tombstone-for-that-topic] 0 <= gk && gk < len(mKept) && 0 <= gj && gj < len(unbox(unbox(result0, "map[string]interface{}")["producers"], "[]*node")[gk].Topics) &&
+//@        unbox(unbox(result0, "map[string]interface{}")["producers"], "[]*node")[gk].Topics[gj] == r6MWatchTopic ==>
+//@        r6MFlagOK(unbox(unbox(result0, "map[string]interface{}")["producers"], "[]*node")[gk].Tombstones[gj], r6MWatchTopicFound, mKept[gk].peerInfo, s.nsqlookupd.opts.TombstoneLifetime, mClock)
 //@   ensures[registry-untouched] mAddCalls == old(mAddCalls) && mRemCalls == old(mRemCalls) && mTombCalls == old(mTombCalls)
 //@   modifies mFound, mKept, lastNow, mClock, lookedUpID, lookedUpLen, removedSinceLookup, RegistrationDB.registrationMap, mapstore(map[Registration]ProducerMap), mapstore(ProducerMap)
 //@   loop 0
@@ -285,6 +309,9 @@ package nsqlookupd
 //@     invariant[distinct-ids] r3cDistinctIDs(producers)
 //@     invariant[node-topics-sound] 0 <= gk && gk <= rangeindex && producers[gk].peerInfo.id == r3cWatchPeer ==> r3cTopicsSound(nodes[gk].Topics, r3cWatchLooked)
 //@     invariant[node-topics-complete] 0 <= gk && gk <= rangeindex && producers[gk].peerInfo.id == r3cWatchPeer ==> r3cTopicsComplete(nodes[gk].Topics, r3cWatchLooked)
+//@     invariant[node-lists-allocated] 0 <= gk && gk <= rangeindex ==> allocated(base(nodes[gk].Tombstones)) && allocated(base(nodes[gk].Topics))
+//@     invariant[cache-watch] r6MCacheWatch(topicProducersMap)
+//@     invariant[node-flags] 0 <= gk && gk <= rangeindex ==> r6MNodeFlagOK(nodes[gk], gj, topicProducersMap, producers[gk].peerInfo, s.nsqlookupd.opts.TombstoneLifetime, mClock)
 //@   loop 1
 //@     invariant producers == mKept && mValidProds(producers) && fresh(nodes) && len(nodes) == len(producers) && 0 <= i && i < len(producers) && p == producers[i]
 //@     invariant topicProducersMap != nil && fresh(topicProducersMap) && mCacheOK(topicProducersMap)
@@ -298,6 +325,11 @@ package nsqlookupd
 //@     invariant[node-topics-complete] 0 <= gk && gk < i && producers[gk].peerInfo.id == r3cWatchPeer ==> r3cTopicsComplete(nodes[gk].Topics, r3cWatchLooked)
 //@     invariant[cur-topics-sound] producers[i].peerInfo.id == r3cWatchPeer ==> r3cTopicsSound(topics, r3cWatchLooked)
 //@     invariant[cur-topics-complete] producers[i].peerInfo.id == r3cWatchPeer ==> r3cTopicsComplete(topics, r3cWatchLooked)
+//@     invariant[cache-watch] r6MCacheWatch(topicProducersMap)
+//@     invariant[node-flags] 0 <= gk && gk < i ==> r6MNodeFlagOK(nodes[gk], gj, topicProducersMap, producers[gk].peerInfo, s.nsqlookupd.opts.TombstoneLifetime, mClock)
+//@     invariant[cur-flags] 0 <= gj && gj <= rangeindex && gj < len(topics) && topics[gj] == r6MWatchTopic ==> has(topicProducersMap, r6MWatchTopic) && r6MFlagOK(tombstones[gj], r6MWatchTopicFound, p.peerInfo, s.nsqlookupd.opts.TombstoneLifetime, mClock)
+//@     invariant[flags-apart] 0 <= gk && gk < i ==> base(nodes[gk].Tombstones) != base(tombstones)
+//@     invariant[flags-start-false] forall z int :: {tombstones[z]} rangeindex < z && z < len(tombstones) ==> !tombstones[z]
 //@   loop 2
 //@     invariant producers == mKept && mValidProds(producers) && fresh(nodes) && len(nodes) == len(producers) && 0 <= i && i < len(producers) && p == producers[i]
 //@     invariant topicProducersMap != nil && fresh(topicProducersMap) && mCacheOK(topicProducersMap)
@@ -312,3 +344,10 @@ package nsqlookupd
 //@     invariant[node-topics-complete] 0 <= gk && gk < i && producers[gk].peerInfo.id == r3cWatchPeer ==> r3cTopicsComplete(nodes[gk].Topics, r3cWatchLooked)
 //@     invariant[cur-topics-sound] producers[i].peerInfo.id == r3cWatchPeer ==> r3cTopicsSound(topics, r3cWatchLooked)
 //@     invariant[cur-topics-complete] producers[i].peerInfo.id == r3cWatchPeer ==> r3cTopicsComplete(topics, r3cWatchLooked)
+//@     invariant[cache-watch] r6MCacheWatch(topicProducersMap)
+//@     invariant[node-flags] 0 <= gk && gk < i ==> r6MNodeFlagOK(nodes[gk], gj, topicProducersMap, producers[gk].peerInfo, s.nsqlookupd.opts.TombstoneLifetime, mClock)
+//@     invariant[cur-flags] 0 <= gj && gj < j && topics[gj] == r6MWatchTopic ==> has(topicProducersMap, r6MWatchTopic) && r6MFlagOK(tombstones[gj], r6MWatchTopicFound, p.peerInfo, s.nsqlookupd.opts.TombstoneLifetime, mClock)
+//@     invariant[flags-apart] 0 <= gk && gk < i ==> base(nodes[gk].Tombstones) != base(tombstones)
+//@     invariant[flags-start-false] forall z int :: {tombstones[z]} j <= z && z < len(tombstones) ==> !tombstones[z]
+//@     invariant[searching-the-topics-producers] t == topics[j] && (t == r6MWatchTopic ==> has(topicProducersMap, r6MWatchTopic) && topicProducers == r6MWatchTopicFound)
+//@     invariant[no-entry-of-this-peer-so-far] forall q int :: {topicProducers[q]} 0 <= q && q <= rangeindex && q < len(topicProducers) ==> topicProducers[q].peerInfo != p.peerInfo
